@@ -28,6 +28,11 @@ def to_json(v):
             raise ValueError(f'non-integral float {v}')
         return {'f': int(v)}
     if isinstance(v, str):
+        if v.startswith('$'):
+            j, rest = parse_term(v)
+            if rest:
+                raise ValueError(f'trailing text in symbolic value {v!r}')
+            return j
         return {'s': v}
     if isinstance(v, tuple) and len(v) == 4 and v[0] == APP:
         return {'a': [v[1], [to_json(x) for x in v[2]], [[k, to_json(x)] for k, x in v[3]]]}
@@ -36,6 +41,66 @@ def to_json(v):
     if isinstance(v, dict):
         return {'d': [[to_json(k), to_json(x)] for k, x in v.items()]}
     raise ValueError(f'cannot encode {type(v).__name__}: {v!r}')
+
+
+def _split_args(text):
+    """split `a,b,c` at top level (outside brackets and quotes)"""
+    out, depth, cur, q, i = [], 0, '', None, 0
+    while i < len(text):
+        ch = text[i]
+        if q:
+            cur += ch
+            if ch == '\\':
+                cur += text[i + 1]
+                i += 1
+            elif ch == q:
+                q = None
+        elif ch in '\'"':
+            q = ch
+            cur += ch
+        elif ch in '([{':
+            depth += 1
+            cur += ch
+        elif ch in ')]}':
+            depth -= 1
+            cur += ch
+        elif ch == ',' and depth == 0:
+            out.append(cur)
+            cur = ''
+        else:
+            cur += ch
+        i += 1
+    if cur:
+        out.append(cur)
+    return out
+
+
+def parse_term(text):
+    """`$name(arg,..,k=arg)` -> {'a': [name, [args], [[k, arg]]]}; returns (json, rest)"""
+    import ast
+    import re
+    m = re.match(r'\$(\w+)\(', text)
+    if not m or not text.endswith(')'):
+        raise ValueError(text)
+    inner = text[m.end():-1]
+    pos, kw = [], []
+    for part in _split_args(inner):
+        mk = re.match(r'([A-Za-z_]\w*)=(.*)$', part, re.S)
+        if mk and not part.startswith('$'):
+            kw.append([mk.group(1), parse_value(mk.group(2))])
+        else:
+            pos.append(parse_value(part))
+    return {'a': [m.group(1), pos, kw]}, ''
+
+
+def parse_value(text):
+    import ast
+    text = text.strip()
+    if text.startswith('$'):
+        return parse_term(text)[0]
+    if text.startswith('(') and text.endswith(')') and '$' in text:
+        return {'t': [parse_value(x) for x in _split_args(text[1:-1])]}
+    return to_json(ast.literal_eval(text))
 
 
 def from_json(j):
